@@ -98,12 +98,21 @@ def scan_loop_ordinal():
 ROWS_TEXT = "ABCDEFGHIJKLMNOPQRSTUVWXYZ0123456789ABCD"      # 40 characters
 
 
+def row_words(text):
+    """code words of a row; '~' stands for a mid-row italics code (it occupies one cell)"""
+    parts = text.split("~")
+    ws = list(C.text_words(parts[0]))
+    for part in parts[1:]:
+        ws += [C.midrow(True)] + list(C.text_words(part))
+    return ws
+
+
 def popon(rows, tc):
     """one pop-on caption with the given (row number, text) rows, shown with EOC; one line of SCC"""
     ws = [C.ctrl("ENM"), C.ctrl("RCL")]
     for r, text in rows:
         ws.append(C.pac(r))
-        ws += C.text_words(text)
+        ws += row_words(text)
     ws += [C.ctrl("EDM"), C.ctrl("EOC")]
     return tc, ws
 
@@ -120,7 +129,7 @@ def stream(mode, rowsets, terminated=True):
     elif mode == "roll":
         for rows in rowsets:
             for r, text in rows:
-                lines.append((C.timecode(t), [C.ctrl("RU2"), C.ctrl("CR"), C.pac(15)] + C.text_words(text)))
+                lines.append((C.timecode(t), [C.ctrl("RU2"), C.ctrl("CR"), C.pac(15)] + row_words(text)))
                 t += 90
         if terminated:
             lines.append((C.timecode(t), [C.ctrl("CR")]))
@@ -128,7 +137,7 @@ def stream(mode, rowsets, terminated=True):
         for rows in rowsets:
             ws = [C.ctrl("RDC")]
             for r, text in rows:
-                ws += [C.pac(r)] + C.text_words(text)
+                ws += [C.pac(r)] + row_words(text)
             lines.append((C.timecode(t), ws))
             t += 90
         if terminated:
@@ -155,6 +164,18 @@ def bounded(ctx, b):
             cases.append((mode, True, [[(14, ind), (15, ROWS_TEXT[:10])]]))
             cases.append((mode, True, [[(14, ROWS_TEXT[:10]), (15, ind)]]))
             cases.append((mode, False, [[(3, ind)], [(9, ROWS_TEXT[:5])]]))
+    for mode in ("pop", "roll", "paint"):
+        # a row interrupted by a mid-row style code is still ONE line: 18 + 1 + 18 cells, or 10 + 1 + 10
+        cases.append((mode, True, [[(15, ROWS_TEXT[:18] + "~" + ROWS_TEXT[:18])]]))
+        cases.append((mode, True, [[(15, ROWS_TEXT[:10] + "~" + ROWS_TEXT[:10])]]))
+        cases.append((mode, True, [[(14, ROWS_TEXT[:5]), (15, ROWS_TEXT[:17] + "~" + ROWS_TEXT[:17])]]))
+        # two over-long rows on consecutive screen rows of ONE caption: both are named
+        cases.append((mode, True, [[(14, ROWS_TEXT[:34]), (15, "X" + ROWS_TEXT[:35])]]))
+        cases.append((mode, True, [[(13, ROWS_TEXT[:33]), (14, ROWS_TEXT[:10]), (15, "Y" + ROWS_TEXT[:36])]]))
+        # an empty row (a preamble address code without text) next to a long one, in both orders of transmission
+        cases.append((mode, True, [[(5, "top"), (10, ""), (11, ROWS_TEXT[:34])]]))
+        cases.append((mode, True, [[(10, ""), (11, ROWS_TEXT[:34]), (5, "top")]]))
+        cases.append((mode, True, [[(5, "top"), (10, ""), (11, ROWS_TEXT[:30])]]))
     for _ in range(100 if not ctx.thorough else 2000):
         mode = rng.choice(["pop", "roll", "paint"])
         sets = [[(r, ROWS_TEXT[:rng.choice(lens + [10, 20])]) for r in sorted(rng.sample([1, 3, 5, 7, 9, 11, 13, 15], rng.choice([1, 2, 3])))]
@@ -164,7 +185,10 @@ def bounded(ctx, b):
     shared = SCCReader()
     for mode, term, sets in cases:
         texts = [t for rows in sets for _, t in rows if t]
-        longs = [t for t in texts if len(t) > 32]
+        # (a mid-row code's cell may or may not be reproduced: such rows are chosen well above / below 32 either
+        # way, and are not looked up by their exact text in the message)
+        longs = [t for t in texts if len(t.replace("~", "")) > 32]
+        named_exactly = [t for t in longs if "~" not in t]
 
         def one():
             doc = stream(mode, sets, term)
@@ -172,7 +196,7 @@ def bounded(ctx, b):
                 cs = shared.read(doc)
             except CaptionLineLengthError as e:
                 msg = str(e)
-                named = all(f"{t} - Length {len(t)}" in msg for t in longs)
+                named = all(f"{t} - Length {len(t)}" in msg for t in named_exactly)
                 return bool(longs) and named, {"raised": msg[:300], "long_rows": longs}
             except Exception as e:
                 if not texts:
